@@ -216,4 +216,118 @@ def canonItems (op : Op) : List Expr → List Expr
   | e :: es => items op (wrapE (decide (e.lvl < op.lvl)) (canon e)) ++ canonItems op es
 end
 
+/-! ### Prepare: the neo4j ExpressionListRewriter (query/neo4j/rewrite.go) on the WHERE expression
+
+`prep sn neg inList e` mirrors the post-order walk: `neg` = a Negation is on the descent stack, `inList` = the
+immediate parent is an ExpressionList (Where, Conjunction, Disjunction, ExclusiveDisjunction). Result `none` = Prepare
+fails ("expected an expression list AST node"); otherwise the kind lists hoisted onto the relationship pattern (one
+entry per matcher, in walk order) and what is left of the node (`none` = removed from its parent list).
+`sn` switches the string-negation null guard (`not (x contains y)` ↦ `(not (…) or x is null)`), a deliberate change of
+meaning that the eval theorem leaves out. -/
+
+def edgeSym : String := "r"      -- query.EdgeSymbol
+
+def isStrOp : CmpOp → Bool
+  | .startsWith => true
+  | .endsWith => true
+  | .contains => true
+  | _ => false
+
+def unwrapParens : Expr → Expr
+  | .paren e => unwrapParens e
+  | e => e
+
+def strNegGuard (c : Expr) : Option Expr :=
+  match unwrapParens c with
+  | .cmp l op _ => if isStrOp op then some (.paren (.join .or [.neg c, .isNull l false])) else none
+  | _ => none
+
+def negExit (sn inList : Bool) (c : Expr) : Expr :=
+  if sn && inList then (strNegGuard c).getD (.neg c) else .neg c
+
+/-- Parenthetical exit: an emptied list removes the parenthetical from its parent list, a one-element list is unwrapped -/
+def parenExit (inList : Bool) : Expr → Option Expr
+  | .join op [] => if inList then none else some (.paren (.join op []))
+  | .join _ [x] => some (.paren x)
+  | c => some (.paren c)
+
+/-- ExpressionList exit: an empty list removes itself from its parent list -/
+def joinExit (inList : Bool) (op : Op) (es : List Expr) : Option Expr :=
+  if es.isEmpty && inList then none else some (.join op es)
+
+def consOpt : Option Expr → List Expr → List Expr
+  | some x, xs => x :: xs
+  | none, xs => xs
+
+mutual
+def prep (sn neg inList : Bool) : Expr → Option (List (List String) × Option Expr)
+  | .cmp l op r => some ([], some (.cmp l op r))
+  | .isNull l b => some ([], some (.isNull l b))
+  | .kinds ref ks a =>
+    if ref = edgeSym && !neg then (if inList then some ([ks], none) else none)
+    else some ([], some (.kinds ref ks a))
+  | .neg c =>
+    match prep sn true false c with
+    | some p => some (p.1, some (negExit sn inList (p.2.getD c)))
+    | none => none
+  | .paren c =>
+    match prep sn neg false c with
+    | some p => some (p.1, parenExit inList (p.2.getD c))
+    | none => none
+  | .join op es =>
+    match prepList sn neg es with
+    | some p => some (p.1, joinExit inList op p.2)
+    | none => none
+def prepList (sn neg : Bool) : List Expr → Option (List (List String) × List Expr)
+  | [] => some ([], [])
+  | e :: es =>
+    match prep sn neg true e, prepList sn neg es with
+    | some p, some q => some (p.1 ++ q.1, consOpt p.2 q.2)
+    | _, _ => none
+end
+
+def flattenKinds : List (List String) → List String
+  | [] => []
+  | ks :: r => ks ++ flattenKinds r
+
+/-- what QueryBuilder.Prepare does to the WHERE expression: kinds appended to the relationship pattern, new WHERE -/
+def prepare (e : Expr) : Option (List String × Option Expr) :=
+  match prep true false true e with
+  | some p => some (flattenKinds p.1, p.2)
+  | none => none
+
+/-- kinds on the relationship pattern `[r:A|B]`: any-of; no kinds = no constraint -/
+def patK (v : Val) : List String → V3
+  | [] => some true
+  | k :: ks => evalKinds v edgeSym .or (k :: ks)
+
+def evalOpt (v : Val) : Option Expr → V3
+  | none => some true
+  | some e => eval v e
+
+/-- a row is returned iff the pattern matches and the WHERE is true -/
+def meaning (v : Val) (ks : List String) (w : Option Expr) : V3 := and3 (patK v ks) (evalOpt v w)
+
+mutual
+/-- one flag per matcher the rewriter will hoist: does it sit in a purely conjunctive position (and is it any-of)? -/
+def sites (neg conj : Bool) : Expr → List Bool
+  | .kinds ref ks a =>
+    -- the pattern `[r:A|B]` is any-of: an all-of matcher over several kinds cannot be hoisted faithfully either
+    if ref = edgeSym && !neg then [conj && !(a && decide (2 ≤ ks.length))] else []
+  | .neg c => sites true false c
+  | .paren c => sites neg conj c
+  | .join op es => sitesList neg (conj && decide (op = .and)) es
+  | _ => []
+def sitesList (neg conj : Bool) : List Expr → List Bool
+  | [] => []
+  | e :: es => sites neg conj e ++ sitesList neg conj es
+end
+
+/-- at most one hoisted matcher, and it is reached through conjunctions and parentheses only -/
+def hoistOK (e : Expr) : Bool :=
+  match sites false true e with
+  | [] => true
+  | [b] => b
+  | _ => false
+
 end Dawgs.C10
